@@ -38,12 +38,18 @@ def shrink_sync(case):
     return _shrink_lists(case, "|", int_fields=(2,), list_fields=((3, ","), (15, ";"), (16, ";"), (18, ";")))
 
 
+def shrink_world(case):
+    head, _, rest = case.partition("#")
+    return [head + "#" + c for c in shrink_sync(rest)]
+
+
 # ---------------------------------------------------------------- engines
 
 ENGINES = {
     "ordinals": {"trivial_tags": {"noann", "empty", "bad"}},
     "reconcile": {"trivial_tags": {"noop.par", "noop.mono", "deleting", "bad"}, "shrink": shrink_reconcile},
     "sync": {"trivial_tags": {"paused", "badselector", "ok", "err", "bad"}, "shrink": shrink_sync},
+    "world": {"trivial_tags": {"outside-premises", "bad"}, "shrink": shrink_world},
 }
 
 
@@ -147,9 +153,30 @@ def proj_sync_history(case, o):
     return ([e for e in log_entries(o) if e.startswith("delete:rev:")], sorted(x.split(":")[0] for x in o.get("revs", "").split(";") if x))
 
 
+WORLD_RULE = ("world: the sync worlds with cache = API as initial states (four fifths inside C02's premises: valid spec, canonical member pods matching the "
+              "selector and not foreign-owned, well-formed slots, no Failed/Succeeded pod outside the desired set under OrderedReady), up to 24 rounds of "
+              "(settle; sync) on the real controller with graceful pod deletion (terminated pods vanish at once), faults of the plan in round 1 only. "
+              "non-trivial = inside the premises; distinct = distinct case line")
+
+
+def wo(quick=2500, thorough=40000, proj=None):
+    return {"engine": "world", "quick": quick, "thorough": thorough, "proj": proj, "extra_seeds": 1}
+
+
+def proj_world_final(case, o):
+    # the last round's pods / status and the number of rounds
+    ks = sorted((k for k in o if k.startswith("s") and k[1:].isdigit()), key=lambda k: int(k[1:]))
+    return (o.get("n"), o.get(ks[-1]) if ks else None)
+
+
+def proj_world_all(case, o):
+    return sorted(o.items())
+
+
 PROPS = {
+    "C02": {"module": "Asts.Props.C02", "claimed": False, "runs": [wo(proj=proj_world_all), sy(quick=4000, proj=proj_sync_all)], "rule": WORLD_RULE + " || " + SY_RULE},
     "C08": {"module": "Asts.Props.C08", "claimed": False, "runs": [sy(proj=proj_sync_revs)], "rule": SY_RULE},
-    "C09": {"module": "Asts.Props.C09", "claimed": False, "runs": [sy(proj=proj_sync_all)], "rule": SY_RULE},
+    "C09": {"module": "Asts.Props.C09", "claimed": False, "runs": [sy(proj=proj_sync_all), wo(quick=1500, proj=proj_world_final)], "rule": SY_RULE + " || " + WORLD_RULE},
     "C10": {"module": "Asts.Props.C10", "claimed": False, "runs": [sy(proj=proj_sync_owner)], "rule": SY_RULE},
     "C11": {"module": "Asts.Props.C11", "claimed": False, "runs": [sy(proj=proj_sync_c11)], "rule": SY_RULE},
     "C13": {"module": "Asts.Props.C13", "claimed": False, "runs": [sy(proj=proj_sync_history)], "rule": SY_RULE},
@@ -157,9 +184,18 @@ PROPS = {
     "C04": {"module": "Asts.Props.C04", "runs": [rc(proj=proj_creates)], "rule": RC_RULE},
     "C05": {"module": "Asts.Props.C05", "runs": [rc(proj=proj_create_delete)], "rule": RC_RULE},
     "C07": {"module": "Asts.Props.C07", "runs": [rc(proj=proj_create_delete)], "rule": RC_RULE},
-    "C12": {"module": "Asts.Props.C12", "claimed": False, "runs": [rc(proj=proj_status), sy(quick=6000, proj=lambda c, o: o.get("status"))], "rule": RC_RULE + " || " + SY_RULE},
-    "C14": {"module": "Asts.Props.C14", "claimed": False, "runs": [rc(proj=proj_create_delete)], "rule": RC_RULE},
-    "C15": {"module": "Asts.Props.C15", "claimed": False, "runs": [rc(proj=proj_panic), sy(quick=6000, proj=proj_panic)], "rule": RC_RULE + " || " + SY_RULE},
+    "C12": {"module": "Asts.Props.C12", "runs": [rc(proj=proj_status), sy(quick=6000, proj=lambda c, o: o.get("status")), wo(quick=1200, proj=proj_world_final)],
+            "rule": RC_RULE + " || " + SY_RULE + " || " + WORLD_RULE,
+            "assumptions": ["bounds clause: every pod object of the snapshot carries a phase (the API server stamps Pending on create); "
+                            "a phase-less pod outside the desired set drives currentReplicas to -1 in the model (example in Props/C12.lean)",
+                            "generation clause: the stored observedGeneration is not ahead of the object's generation (true of every object the controller itself wrote)"]},
+    "C14": {"module": "Asts.Props.C14", "runs": [rc(proj=proj_create_delete)], "rule": RC_RULE,
+            "assumptions": ["replicas present and >= 0 (CRD)", "wfSnapshot (every pod has a phase, ordinals distinct)",
+                            "pod ids are their positions in the snapshot and there are at most freshId pods (how the driver numbers pod objects; classify looks pods up by id)",
+                            "pod ordinals < MaxInt32 and replica count of GetMaxReplicaCountAndDeleteSlots <= MaxInt32 (no sentinel panic, see C15)"]},
+    "C15": {"module": "Asts.Props.C15", "runs": [rc(proj=proj_panic), sy(quick=6000, proj=proj_panic)], "rule": RC_RULE + " || " + SY_RULE,
+            "assumptions": ["replicas present (CRD: required)", "pod ordinals < MaxInt32 (the property's stated range)",
+                            "replicas + |slots| <= MaxInt32: the first-unhealthy scan also covers the fresh objects built for vacant slots, whose ordinals reach replicas+|slots|-1"]},
     "C01": {
         "module": "Asts.Props.C01",
         "runs": [
@@ -172,3 +208,19 @@ PROPS = {
         "assumptions": ["r + |slots| < 2^31 (int32 counter of the range-extension loop does not overflow; the annotation size limit enforces it)"],
     },
 }
+
+
+# ---------------------------------------------------------------- extensions (one file per engine family: vlib/ext_*.py)
+
+def _load_extensions():
+    import glob
+    import importlib
+    import os
+    here = os.path.dirname(os.path.abspath(__file__))
+    for path in sorted(glob.glob(os.path.join(here, "ext_*.py"))):
+        name = os.path.basename(path)[:-3]
+        mod = importlib.import_module("." + name, __package__)
+        mod.register(globals())
+
+
+_load_extensions()
